@@ -60,7 +60,9 @@ func cbCasSites(P *Program) (*ssa.Function, []casSite) {
 		}
 		out = append(out, s)
 	}
-	sort.Slice(out, func(i, j int) bool { return fnKey(out[i].fn)+out[i].from+out[i].to < fnKey(out[j].fn)+out[j].from+out[j].to })
+	sort.Slice(out, func(i, j int) bool {
+		return fnKey(out[i].fn)+out[i].from+out[i].to < fnKey(out[j].fn)+out[j].from+out[j].to
+	})
 	return cas, out
 }
 
